@@ -63,6 +63,7 @@ type Conn struct {
 	CloseCalls  int
 	ClosedAt    time.Duration
 	ReadDLCalls int
+	Handed      bool // the library received this socket (dial returned it / Accept returned it)
 }
 
 type timeoutErr struct{}
@@ -363,6 +364,9 @@ func (l *Listener) Accept() (net.Conn, error) {
 			c := l.backlog[0]
 			l.backlog = l.backlog[1:]
 			l.mu.Unlock()
+			c.mu.Lock()
+			c.Handed = true
+			c.mu.Unlock()
 			return c, nil
 		}
 		l.mu.Unlock()
@@ -461,6 +465,7 @@ func (n *Net) Dial(ctx context.Context, network, address string) (net.Conn, erro
 		return nil, err
 	}
 	lib, peer := n.pipe("lib", "peer")
+	lib.Handed = true
 	n.mu.Lock()
 	n.LibConns = append(n.LibConns, lib)
 	n.peers = append(n.peers, peer)
@@ -549,7 +554,11 @@ func (n *Net) Unclosed() (conns, listeners int) {
 	n.mu.Lock()
 	defer n.mu.Unlock()
 	for _, c := range n.LibConns {
-		if !c.isClosed() {
+		c.mu.Lock()
+		handed := c.Handed
+		c.mu.Unlock()
+		// a connection still sitting in a listener's backlog was never given to the library
+		if handed && !c.isClosed() {
 			conns++
 		}
 	}
